@@ -92,7 +92,7 @@ Definition gates_of (method : string) : list gate :=
   else if String.eqb method "EnableRule" then [GEnabled; GWrite]
   else if String.eqb method "Clear" then [GEnabled; GWrite]
   else if String.eqb method "SetParents" then [GEnabled; GWrite]
-  else if String.eqb method "GetParents" then [GEnabled]
+  else if String.eqb method "GetParents" then [GEnabled; GRead]
   else if String.eqb method "StateSize" then [GEnabled; GRead]
   else if String.eqb method "searchFacts" then [GEnabled; GRead]
   else if String.eqb method "searchRules" then [GEnabled; GRead]
